@@ -1809,13 +1809,17 @@ class NiftiWrapper(object):
         result_hdr = result_nii.header
 
         #Update the header with any info that is consistent across inputs
-        if hdr_info['qform'] is not None and hdr_info['qform_code'] is not None:
+        if (hdr_info['qform'] is not None and
+            hdr_info['qform_code'] is not None and
+            int(hdr_info['qform_code']) != 0):
             if not scaled_dim_dir is None:
                 hdr_info['qform'][:3, dim] = scaled_dim_dir
             result_nii.set_qform(hdr_info['qform'],
                                  int(hdr_info['qform_code']),
                                  update_affine=True)
-        if hdr_info['sform'] is not None and hdr_info['sform_code'] is not None:
+        if (hdr_info['sform'] is not None and
+            hdr_info['sform_code'] is not None and
+            int(hdr_info['sform_code']) != 0):
             if not scaled_dim_dir is None:
                 hdr_info['sform'][:3, dim] = scaled_dim_dir
             result_nii.set_sform(hdr_info['sform'],
